@@ -239,7 +239,7 @@ def resolve_bad(root: Any, other: Any, op: dict) -> Bad:
         if a.expect_exc is None and not a.refusal_documented and not op.get('may_raise'):
             raise OPS.NotApplicable('valid op')
         b.call = a.run
-        if a.family == 'list' and a.op.get('op') == 'reverse':
+        if a.op.get('op') == 'reverse':
             b.cls = 'i:reverse'
         elif a.refusal_documented or (a.expect_exc is ValueError):
             b.cls = 'c:size-mismatch'
@@ -584,6 +584,9 @@ def _gen_bad(g: L.G, root: Any) -> Optional[dict]:
                 op = {'f': 'map', **base_op, 'op': g.pick(['del', 'pop']), 'key': 'nosuchkey'}
             elif y == 4 and p.kind in ('list', 'clist') and n >= 2:
                 op = {'f': 'list', **base_op, 'op': 'reverse'}
+            elif y == 4 and p.kind in ('cview', 'fview') and n >= 2:
+                # reverse() through a view that shows nodes: if it raises, nothing may have moved
+                return {'f': 'bad', 'k': 'op', 'op': {'f': 'view', **base_op, 'op': 'reverse'}, 'may_raise': True}
             elif y == 5 and fam == 'view' and n >= 1:
                 op = OPS._gen_listop(g, fam, base_op, 'setslice', n, lambda: _mk(g, m, p), False)
                 op['i'], op['j'], op['k'] = 0, g.n(0, n), None
